@@ -251,6 +251,51 @@ def oracle_e2e(ck, rng):
                          oracle="end_to_end_pose_recovery", measured=detail)
 
 
+def oracle_template_free(ck, rng):
+    """template-free alignment (loader and loader group): six copies of one particle at random orientations, five input molecules on
+    the true pose and one displaced within the search range; the template is the loader's own average, dominated by the five, so every
+    output molecule must lie on its particle (0.6 px), the displaced one included, and the shift features must describe the move"""
+    from acryo import SubtomogramLoader, Molecules, TomogramSimulator
+    from acryo.alignment import ZNCCAlignment, PCCAlignment
+    from scipy.spatial.transform import Rotation
+    tmpl = template()
+    for it in range(2 if ck.tier == "quick" else 8):
+        scale = [0.5, 2.0, 1.0, 1.6][it % 4]
+        n = 6
+        Rtrue = Rotation.from_rotvec(rng.normal(size=(n, 3)) * 0.6)
+        ptrue = np.stack([np.array([20.0, 20.0, 20.0 + 26 * j]) + rng.uniform(-0.5, 0.5, size=3) for j in range(n)])
+        sim = TomogramSimulator(order=3, scale=scale)
+        sim.add_molecules(Molecules(ptrue * scale, Rtrue), tmpl)
+        tomo = sim.simulate((40, 40, 26 * n + 14))
+        s = np.zeros((n, 3))
+        odd = int(rng.integers(0, n))
+        s[odd] = rng.choice([-2.0, -1.5, 1.5, 2.0], size=3)
+        p = ptrue - np.stack([Rtrue[j].apply(s[j]) for j in range(n)])
+        M = [ZNCCAlignment, PCCAlignment][it % 2]
+        c = {"iteration": it, "scale": scale, "model": M.__name__, "displaced_molecule": odd, "shift_px": s[odd].tolist(), "seed": ck.seed}
+        for entry in ("loader", "group"):
+            try:
+                mol = Molecules(p * scale, Rtrue, features={"g": [0] * n})
+                ld = SubtomogramLoader(tomo, mol, order=3, scale=scale, output_shape=tmpl.shape)
+                if entry == "loader":
+                    mo = ld.align_no_template(max_shifts=3.0 * scale, alignment_model=M).molecules
+                else:
+                    g = ld.groupby("g").align_no_template(max_shifts=3.0 * scale, alignment_model=M)
+                    mo = list(g)[0][1].molecules
+                perr = np.abs(mo.pos / scale - ptrue).max(axis=1)
+                f = mo.features
+                fs = np.stack([f["align-dz"].to_numpy(), f["align-dy"].to_numpy(), f["align-dx"].to_numpy()], axis=1)
+                moved = np.stack([Rtrue[j].apply(mo.pos[j] - p[j] * scale, inverse=True) for j in range(n)])
+                ok = bool(perr.max() <= 0.6 and np.abs(fs - moved).max() <= 0.01 * max(scale, 1.0) and len(mo) == n)
+                detail = f"position errors {np.round(perr, 2).tolist()} px; shift features differ from the actual move by {np.abs(fs - moved).max():.3f} nm"
+            except Exception as e:  # noqa
+                ok, detail = False, f"raised {type(e).__name__}: {e}"
+            ck.oracle_count("template_free_pose_recovery", 1, 1)
+            if not ok:
+                ck.violation(what=f"align_no_template ({entry}): {detail}", inp=dict(c, entry=entry), key={"site": "e2e-template-free", "entry": entry},
+                             oracle="template_free_pose_recovery", measured=detail)
+
+
 def run(ck: common.Check):
     ck.design_ref = "DESIGN.md §6 C01"
     ck.trusted_base = TB
@@ -266,6 +311,7 @@ def run(ck: common.Check):
     rng = np.random.default_rng(ck.seed + 101)
     corr_post_align(ck, rng)
     oracle_e2e(ck, rng)
+    oracle_template_free(ck, np.random.default_rng(ck.seed + 10101))
 
 
 def replay(data):
